@@ -3,12 +3,12 @@
    ExtrOcamlNativeString (ascii -> char, string -> OCaml string). *)
 From Coq Require Import ZArith List.
 From Coq Require Extraction ExtrOcamlBasic ExtrOcamlZBigInt ExtrOcamlNativeString.
-From MV Require Import Base.Field Core.Op Core.Batch Core.Rpo Core.Mast Vm.State Vm.Step Vm.Exec Vm.Options Vm.TraceLen Asm.SpecTable Asm.Lower Air.Expr Gen.AirGen Serde.Codec Serde.Ast Serde.Kinds Gen.SerdeGen Asm.Linker Air.ProofParams Ref.Sha256 Ref.Blake3 Ref.Keccak.
+From MV Require Import Base.Field Core.Op Core.Batch Core.Rpo Core.Mast Vm.State Vm.Step Vm.Exec Vm.Options Vm.TraceLen Asm.SpecTable Asm.Lower Air.Expr Gen.AirGen Serde.Codec Serde.Ast Serde.Kinds Gen.SerdeGen Asm.Linker Air.ProofParams Air.PubInputs Ref.Sha256 Ref.Blake3 Ref.Keccak.
 Extraction Language OCaml.
 Extraction "../driver/gen/model.ml"
   Field.P Op.opcode Batch.batch_ops Batch.span_group_count Rpo.rpo_permute Rpo.hash_elements Rpo.merge_in_domain
   Mast.block_hash Mast.mkProgram State.init_state Step.steps Exec.span_stream Exec.exec_program Options.exec_options_new SpecTable.spec_by_name SpecTable.spec_by_imm Lower.compile_program Expr.eval_nodes AirGen.air_nodes AirGen.air_main
   Kinds.model_decode Kinds.ast_decode Kinds.ast_encode Ast.S_node Ast.S_program Ast.S_module Ast.S_proc Ast.de_tbl Ast.tables_agree Codec.wt SerdeGen.MAX_PUSH_INPUTS
   Linker.lk_program Linker.lk_procs Linker.calls_of
-  ProofParams.reported_security ProofParams.accepts TraceLen.trace_len
+  ProofParams.reported_security ProofParams.accepts TraceLen.trace_len PubInputs.pub_elements
   Sha256.sha256 Blake3.blake3 Keccak.keccak256.
